@@ -71,6 +71,8 @@ class PooledCycleResource(Entity):
         self._available = pool_size
         self._active = 0
         self._queue: deque[Event] = deque()
+        # Hand-off events (queue head -> freed unit) that already own their unit
+        self._handed_off: set[Event] = set()
         self._completed = 0
         self._rejected = 0
 
@@ -118,6 +120,11 @@ class PooledCycleResource(Entity):
         )
 
     def handle_event(self, event: Event) -> Generator[float, None, list[Event]] | list[Event]:
+        if event in self._handed_off:
+            # Dequeued item: its unit was reserved when the previous cycle ended
+            self._handed_off.discard(event)
+            return self._start_cycle(event, reserved=True)
+
         if self._available > 0:
             return self._start_cycle(event)
 
@@ -140,9 +147,12 @@ class PooledCycleResource(Entity):
         )
         return []
 
-    def _start_cycle(self, event: Event) -> Generator[float, None, list[Event]]:
-        self._available -= 1
-        self._active += 1
+    def _start_cycle(
+        self, event: Event, reserved: bool = False
+    ) -> Generator[float, None, list[Event]]:
+        if not reserved:
+            self._available -= 1
+            self._active += 1
 
         try:
             yield self.cycle_time
@@ -166,14 +176,18 @@ class PooledCycleResource(Entity):
         # Try to dequeue next waiting item
         if self._queue and self._available > 0:
             next_event = self._queue.popleft()
-            # Schedule dequeued item for immediate processing
-            results.append(
-                Event(
-                    time=self.now,
-                    event_type=next_event.event_type,
-                    target=self,
-                    context=next_event.context,
-                )
+            # Schedule dequeued item for immediate processing. The freed unit is
+            # reserved for it right away, so an arrival handled at this instant
+            # before the hand-off event cannot take it and jump the queue.
+            self._available -= 1
+            self._active += 1
+            handoff = Event(
+                time=self.now,
+                event_type=next_event.event_type,
+                target=self,
+                context=next_event.context,
             )
+            self._handed_off.add(handoff)
+            results.append(handoff)
 
         return results
